@@ -82,7 +82,8 @@ def _product_form(eng, mb, info, lid):
     return ("elem", it, lid), args[0], args[1], start[1]
 
 
-def run(eng, ctx):
+def run(eng, ctx, layout_only=False):
+    """layout_only: D1/D2 only (what decides whether an MSM message with given masks can be decoded at all - shared with C10)."""
     T = eng.tables
     orc = oracle("msm_labels.json")
     NA = T.const.get("NA", "N/A")
@@ -187,6 +188,39 @@ def run(eng, ctx):
         elem = ("elem", info.get("iter"), lid)
         sym = lambda t, elem=elem: "i" if t == elem else show(t)  # noqa: E731
         E = to_poly(sc["E"], sym)
+        if rng is None and isinstance(W, int):
+            # the scan runs over the keys of the constellation's own table (`for id in table` / `.items()`): the positions it can test are the table's keys,
+            # folded per constellation - a mask bit whose ID is not tabulated is then never examined
+            it = info.get("iter", ("none",))
+            base, keyt = it, elem
+            if it[0] == "call" and it[2][0] == "attr" and it[2][2] in ("items", "keys") and not it[3]:
+                base = it[2][1]
+                keyt = ("proj", elem, 0) if it[2][2] == "items" else elem
+            E2 = to_poly(sc["E"], lambda t, keyt=keyt: "i" if t == keyt else show(t))
+            from ..memo import Unfoldable, fold_term
+
+            doms = {}
+            if E2 is not None and not (E2.symbols() - {"i"}):
+                for pfx in sorted(orc["signals"]):
+                    try:
+                        tb = fold_term(eng, base, {"__terms__": {("field", "identity"): pfx + "4", ("attr", ("self",), "identity"): pfx + "4"}})
+                    except Unfoldable:
+                        doms = None
+                        break
+                    if not isinstance(tb, dict) or not all(isinstance(k_, int) for k_ in tb):
+                        doms = None
+                        break
+                    doms[pfx] = list(tb)
+            if doms:
+                a2, b2 = int(E2.coef("i")), int(E2.const_value())
+                worst = None
+                for pfx, ks in doms.items():
+                    miss = sorted(set(range(W)) - {a2 * i + b2 for i in ks})
+                    if miss and (worst is None or len(miss) > len(worst[1])):
+                        worst = (pfx, miss)
+                ctx.check(worst is None, "C09.D2", mb.qualname, f"scan of {fld} covers all {W} mask bits", expected=f"positions 0..{W - 1} examined for every constellation",
+                          found=f"the loop runs over the constellation's table keys only: for {orc['names'][worst[0]]} {len(worst[1])} mask positions are never examined (e.g. IDs {[W - p_ for p_ in worst[1][:4]]}); a set bit there is counted by the popcount but gets no label" if worst else "ok", **loc)
+                continue
         if rng is None or E is None or not isinstance(W, int) or E.symbols() - {"i"}:
             ctx.undecided("C09.D2", mb.qualname, f"scan of {fld}", detail=f"loop range / bit position not representable: iter={show(info.get('iter', ('?',)))} pos={show(sc['E'])}", **loc)
             continue
@@ -206,21 +240,20 @@ def run(eng, ctx):
                 if isinstance(st, tuple) and st and st[0] == "call" and st[2][0] == "attr" and st[2][2] == "get" and len(st[3]) >= 1:
                     keys.append((st[3][0], e))
         if not keys:
-            ctx.bad("C09.D2", mb.qualname, f"label lookup in scan of {fld}", expected="table.get(ID, N/A) under the bit test", found="no lookup", **loc)
-        # the table consulted: component 0 (satellite ID -> PRN) of the constellation's entry for the satellite scan, component 1 (signal ID -> codes) for the signal scan
-        want_comp = 0 if fld == sat_field else 1
-        for e in sc["effects"][:]:
-            for st in subterms(e.term):
-                if isinstance(st, tuple) and st and st[0] == "call" and st[2][0] == "attr" and st[2][2] == "get" and len(st[3]) >= 1:
-                    recv = st[2][1]
-                    comp = recv[2] if recv[0] == "proj" else (recv[2][1] if recv[0] == "idx" and is_const(recv[2]) else None)
-                    inner = recv[1] if recv[0] in ("proj", "idx") else None
-                    oktab = comp == want_comp and inner is not None and inner[0] == "idx" and inner[1][0] == "gval" and isinstance(inner[1][1].v, dict)
-                    ctx.check(bool(oktab), "C09.D2", mb.qualname, f"table consulted in the scan of {fld}", expected=f"component {want_comp} of the constellation's PRNSIGMAP entry", found=show(recv)[-60:], **eng.loc(mb, e.node))
-                    break
+            subs = [st for e in sc["effects"] for st in subterms(e.term) if isinstance(st, tuple) and st and st[0] == "idx" and st[2] == elem]
+            if subs:
+                from ..memo import Unfoldable, fold_term
+
+                try:
+                    tb = fold_term(eng, subs[0][1], {"__terms__": {("field", "identity"): "1074", ("attr", ("self",), "identity"): "1074"}})
+                except Unfoldable:
+                    tb = None
+                if type(tb) is dict or isinstance(tb, (list, tuple)):
+                    ctx.bad("C09.D2", mb.qualname, f"label lookup in scan of {fld}", expected="table.get(ID, N/A): an ID without a table entry is reported as not available", found=f"plain subscript {show(subs[0])[-50:]}: KeyError for an untabulated ID", **loc)
+                else:
+                    ctx.undecided("C09.D2", mb.qualname, f"label lookup in scan of {fld}", detail="subscript lookup on a table the constant folder cannot evaluate (e.g. a defaultdict): whether a missing ID yields the not-available marker is not decided", **loc)
             else:
-                continue
-            break
+                ctx.bad("C09.D2", mb.qualname, f"label lookup in scan of {fld}", expected="table.get(ID, N/A) under the bit test", found="no lookup", **loc)
         for k, e in keys[:1]:
             K = to_poly(k, sym)
             ok = K is not None and (K + E) == Poly.const(W)
@@ -329,6 +362,8 @@ def run(eng, ctx):
         ctx.undecided("C09.D2", mb.qualname, "cell scan", detail="the satellite / signal counts the cell scan depends on were not identified", **eng.loc(mb, mb.node))
     elif cell_field not in inverted:
         ctx.undecided("C09.D2", mb.qualname, f"scan of {cell_field}", detail="no loop testing one bit of the cell mask per iteration and recording a label under it was recognised", **eng.loc(mb, mb.node))
+    if layout_only:
+        return
     # consumers in the single-field routine: 1-based index from the group loop
     sf = eng.repo.func(eng.single_field_routine)
     ssf = eng.symeval(sf.qualname)
@@ -355,52 +390,67 @@ def run(eng, ctx):
     ctx.instance("derived-label consumers", ncons, 3)
 
     # ------------------------------------------------------------ D3 tables vs standard
-    ctx.rule("C09.D3", "PRNSIGMAP (constant-folded) equals RTCM 10403.3: satellite ID -> PRN for all 7 prefixes, signal ID -> RINEX code (tuple position 1); "
-                       "keys = MSM identity prefixes; the default option selects the RINEX component")
-    prnsig = eng.ce.value("rtcmtables", "PRNSIGMAP")
+    ctx.rule("C09.D3", "for every MSM identity prefix, the tables the satellite / signal scans consult (their lookup receivers constant-folded with the identity set to "
+                       "that constellation) equal RTCM 10403.3: satellite ID -> PRN, signal ID -> RINEX code (tuple position 1); the default option selects the RINEX component")
+    from ..memo import Unfoldable, fold_term
+
     loc = {"file": eng.repo.relpath("rtcmtables"), "line": 0}
-    msm_prefixes = {k[:3] for k in T.tables["RTCM_PAYLOADS_GET_MSM"]}
     nsigs = 0
-    if not isinstance(prnsig, dict):
-        ctx.bad("C09.D3", "rtcmtables.PRNSIGMAP", "table", expected="dict", found=repr(prnsig)[:60], **loc)
-    else:
-        ctx.check(set(prnsig) == msm_prefixes, "C09.D3", "rtcmtables.PRNSIGMAP", "keys", expected=str(sorted(msm_prefixes)), found=str(sorted(prnsig)), **loc)
-        for pfx, want in sorted(orc["signals"].items()):
-            ent = prnsig.get(pfx)
-            name = orc["names"][pfx]
-            if not (isinstance(ent, tuple) and len(ent) == 2 and isinstance(ent[0], dict) and isinstance(ent[1], dict)):
-                ctx.bad("C09.D3", f"PRNSIGMAP[{pfx!r}]", "entry", expected="(prn map, signal map)", found=repr(ent)[:60], **loc)
+    recvs = {}
+    for fld in (sat_field, sig_field):
+        for e in (scans.get(fld, {}).get("effects") or []):
+            for st in subterms(e.term):
+                if isinstance(st, tuple) and st and st[0] == "call" and st[2][0] == "attr" and st[2][2] == "get" and len(st[3]) >= 1:
+                    recvs.setdefault(fld, st[2][1])
+                elif isinstance(st, tuple) and st and st[0] == "idx" and st[2] == ("elem", loops[scans[fld]["loop"][-1]].get("iter"), scans[fld]["loop"][-1]):
+                    recvs.setdefault(fld, st[1])
+    ident_terms = [("field", "identity"), ("attr", ("self",), "identity")]
+    for pfx, want in sorted(orc["signals"].items()):
+        name = orc["names"][pfx]
+        sub = {"__terms__": {t: pfx + "4" for t in ident_terms}}
+        tabs = {}
+        for fld in (sat_field, sig_field):
+            if fld not in recvs:
                 continue
-            prnmap, sigmap = ent
-            # signals
-            got = {str(k): (v[1] if isinstance(v, tuple) and len(v) == 2 else v) for k, v in sigmap.items()}
-            nsigs += len(want)
-            diff = {k: (want.get(k), got.get(k)) for k in set(want) | set(got) if want.get(k) != got.get(k)}
-            ctx.check(not diff, "C09.D3", f"PRNSIGMAP[{pfx!r}] ({name})", "signal ID -> RINEX code", expected=f"{len(want)} codes of the standard",
-                      found=("; ".join(f"ID {k}: standard {w}, table {g}" for k, (w, g) in sorted(diff.items(), key=lambda kv: int(kv[0]))[:5])) if diff else f"{len(got)} codes equal", **loc)
-            bad_shape = [k for k, v in sigmap.items() if not (isinstance(v, tuple) and len(v) == 2 and all(isinstance(x, str) for x in v)) or not isinstance(k, int)]
-            ctx.check(not bad_shape, "C09.D3", f"PRNSIGMAP[{pfx!r}] ({name})", "signal entries are (band, code) pairs keyed by int", expected="int -> (str, str)", found=str(bad_shape[:3]), **loc)
-            # PRN
-            p = orc["prn"][pfx]
-            wantp = {i: f"{i + p['offset']:03d}" for i in range(p["lo"], p["hi"] + 1)}
-            for k, v in p.get("extra", {}).items():
-                wantp[int(k)] = v
-            diffp = {k: (wantp.get(k), prnmap.get(k)) for k in set(wantp) | set(prnmap) if wantp.get(k) != prnmap.get(k)}
-            ctx.check(not diffp, "C09.D3", f"PRNSIGMAP[{pfx!r}] ({name})", "satellite ID -> PRN", expected=f"IDs {p['lo']}..{p['hi']} -> ID+{p['offset']} (3 digits)",
-                      found=("; ".join(f"ID {k}: standard {w}, table {g}" for k, (w, g) in sorted(diffp.items())[:5])) if diffp else f"{len(prnmap)} entries equal", **loc)
+            try:
+                tabs[fld] = fold_term(eng, recvs[fld], sub)
+                from ..consteval import Unknown as _Unk
+
+                if isinstance(tabs[fld], _Unk):
+                    raise Unfoldable(tabs.pop(fld).why)
+            except Unfoldable as err:
+                from ..memo import FoldRaises
+
+                if isinstance(err, FoldRaises):
+                    ctx.bad("C09.D3", mb.qualname, f"table consulted by the scan of {fld} for {name}", expected=f"the {name} table for identities {pfx}x", found=f"selecting the table for identity {pfx}4: {err}", **eng.loc(mb, mb.node))
+                else:
+                    ctx.undecided("C09.D3", mb.qualname, f"table consulted by the scan of {fld} for {name}", detail=f"not foldable: {err}", **eng.loc(mb, mb.node))
+        prnmap, sigmap = tabs.get(sat_field), tabs.get(sig_field)
+        if sigmap is not None:
+            if not isinstance(sigmap, dict):
+                ctx.bad("C09.D3", f"signal table for {pfx} ({name})", "table", expected="dict: signal ID -> (band, code)", found=repr(sigmap)[:60], **loc)
+            else:
+                got = {str(k): (v[1] if isinstance(v, tuple) and len(v) == 2 else v) for k, v in sigmap.items()}
+                nsigs += len(want)
+                diff = {k: (want.get(k), got.get(k)) for k in set(want) | set(got) if want.get(k) != got.get(k)}
+                ctx.check(not diff, "C09.D3", f"signal table for {pfx} ({name})", "signal ID -> RINEX code", expected=f"{len(want)} codes of the standard",
+                          found=("; ".join(f"ID {k}: standard {w}, table {g}" for k, (w, g) in sorted(diff.items(), key=lambda kv: int(kv[0]))[:5])) if diff else f"{len(got)} codes equal", **loc)
+                bad_shape = [k for k, v in sigmap.items() if not (isinstance(v, tuple) and len(v) == 2 and all(isinstance(x, str) for x in v)) or not isinstance(k, int)]
+                ctx.check(not bad_shape, "C09.D3", f"signal table for {pfx} ({name})", "signal entries are (band, code) pairs keyed by int", expected="int -> (str, str)", found=str(bad_shape[:3]), **loc)
+        if prnmap is not None:
+            if not isinstance(prnmap, dict):
+                ctx.bad("C09.D3", f"PRN table for {pfx} ({name})", "table", expected="dict: satellite ID -> PRN", found=repr(prnmap)[:60], **loc)
+            else:
+                p = orc["prn"][pfx]
+                wantp = {i: f"{i + p['offset']:03d}" for i in range(p["lo"], p["hi"] + 1)}
+                for k, v in p.get("extra", {}).items():
+                    wantp[int(k)] = v
+                diffp = {k: (wantp.get(k), prnmap.get(k)) for k in set(wantp) | set(prnmap) if wantp.get(k) != prnmap.get(k)}
+                ctx.check(not diffp, "C09.D3", f"PRN table for {pfx} ({name})", "satellite ID -> PRN", expected=f"IDs {p['lo']}..{p['hi']} -> ID+{p['offset']} (3 digits)",
+                          found=("; ".join(f"ID {k}: standard {w}, table {g}" for k, (w, g) in sorted(diffp.items(), key=lambda kv: str(kv[0]))[:5])) if diffp else f"{len(prnmap)} entries equal", **loc)
     ctx.instance("pinned signal codes compared", nsigs, 72)
-    # key of the table lookup in the map builder = first three identity digits
-    look = [e for e in se.effects if e.kind == "call"]
-    keyterms = set()
-    for v in se.effects:
-        for st in subterms(v.term):
-            if isinstance(st, tuple) and st and st[0] == "idx" and st[1][0] == "gval" and isinstance(st[1][1].v, dict) and st[1][1].v is prnsig:
-                keyterms.add(st[2])
-    okk = len(keyterms) == 1
-    kt = next(iter(keyterms), None)
-    if okk:
-        okk = kt[0] == "slice" and kt[2] in (("const", 0), ("const", None)) and kt[3] == ("const", 3) and "identity" in show(kt[1])
-    ctx.check(bool(okk), "C09.D3", mb.qualname, "table selected by identity prefix", expected="PRNSIGMAP[identity[0:3]]", found=show(kt)[:80] if kt else "no lookup", **eng.loc(mb, mb.node))
+    msm_prefixes = {k[:3] for k in T.tables["RTCM_PAYLOADS_GET_MSM"]}
+    ctx.check(msm_prefixes == set(orc["signals"]), "C09.D3", "RTCM_PAYLOADS_GET_MSM", "MSM identity prefixes", expected=str(sorted(orc["signals"])), found=str(sorted(msm_prefixes)), file=eng.repo.relpath("rtcmtypes_get_msm"), line=0)
     # default option selects RINEX (position 1)
     for e in se.effects:
         if e.kind == "call" and e.term[2][0] == "attr" and e.term[2][2] == "append" and e.loops and sig_field in scans and e.loops == scans[sig_field]["loop"]:
@@ -416,7 +466,7 @@ def run(eng, ctx):
     nget = 0
     gets = {}
     for e in se.effects:
-        if e.kind == "call" and e.term[2][0] == "attr" and e.term[2][2] == "get" and len(e.term[3]) == 2:
+        if e.kind == "call" and e.term[2][0] == "attr" and e.term[2][2] == "get" and len(e.term[3]) == 2 and e.loops:  # the label lookups of the scans
             gets[e.term[1]] = e
     used_sub = {}
     allterms = [e.term for e in se.effects] + [e.target for e in se.effects if e.target]
